@@ -17,7 +17,7 @@ func init() {
 var profC17 = Profile{
 	MaxBars: 6, MinBars: 2, MaxSteps: 40, Refresh: []string{"manual", "manual", "autoinj"}, QLens: []int{-1},
 	Pop: 25, Queue: 70, Prio: true, Ext: 10, Rm: 25, NoPop: 15, AbortW: 3, TicksW: 10,
-	Fillers: []string{"bar", "tag"}, LateAdd: true, Epilogues: []string{"complete", "mixed"}, SyncDecors: 1, PlainDecors: 1, Wraps: true,
+	Fillers: []string{"bar", "tag"}, LateAdd: true, Epilogues: []string{"complete", "mixed"}, SyncDecors: 1, PlainDecors: 1, Wraps: true, AddTick: 25,
 }
 
 func genC17(t *rapid.T) interface{} {
@@ -54,7 +54,7 @@ func runC17(ci interface{}) Result {
 		r.Inconclusive = true
 		return r
 	}
-	r.Classes = append(r.Classes, "refresh:"+sc.Cfg.Refresh)
+	r.Classes = append(append(r.Classes, "refresh:"+sc.Cfg.Refresh), featureClasses(sc)...)
 	nsucc := map[int]int{}
 	chain := 0
 	for i, b := range sc.Bars {
